@@ -17,6 +17,14 @@ _SCHED_NOTE = ('Choice points only where the event loop\'s ready queue is empty 
                'choice); worker jobs atomic; protocol time-outs (30 s) never fire; scripted daemon; fake '
                'plyvel stand-in.')
 CHECKS = {
+    'C10': ('exploration',
+            'stateless schedule exploration with iterative deviation bounding of the full system, queries judged at quiescence',
+            'The C07 scenario family with cache-populating queries before, during (also while blocks are '
+            'undone) and after the events; every choice vector with <= 1 (quick) / 2 (thorough) '
+            'deviations.  At quiescence get_history, get_mempool, get_balance, listunspent for every '
+            'watched script and id_from_pos for the top heights, asked by the client that cached and by '
+            'a fresh one, must equal the answer implied by the final chain and mempool.',
+            _SCHED_NOTE, '3/C10'),
     'C07': ('exploration',
             'stateless schedule exploration with iterative deviation bounding of the full system (block processor, mempool, notifications, sessions, clients)',
             'Twelve scenarios (mempool entry then confirmation, quick blocks with churn, natural reorgs '
